@@ -28,6 +28,14 @@ func OracleC07(tr *Trace) Verdict {
 		who := fmt.Sprintf("%s#%d", id, c.Obj)
 		key := p.Instances[c.Inst].Group
 		stopSeq, stopAPI := ci.firstStopAfter(c.Obj, c.FromSeq)
+		// a stop call that had already begun when the claim went up (and had not returned yet) is under way
+		// during the term just as well: the acquisition completed while the call was waiting for the election
+		// mutex, and the call then ended the term it found
+		for _, a := range ci.stops[c.Obj] {
+			if a.CallSeq < c.FromSeq && (a.RetSeq < 0 || a.RetSeq > c.FromSeq) {
+				stopSeq, stopAPI = c.FromSeq, a
+			}
+		}
 		endT := tr.End
 		if stopAPI != nil && stopAPI.CallT < endT {
 			endT = stopAPI.CallT
